@@ -3,8 +3,8 @@ import json, os, re, time, hashlib
 from . import tlc
 
 T_STORE = {
-    "C01": (["T_C01_Cap", "T_C01_Occupancy"], ["T_C01_PutHonoured"]),
-    "C02": (["T_C02_Backed", "T_C02_ReadyInside"], ["T_C02_GetFresh", "T_C02_GetHonoured", "T_C02_NoInvent"]),
+    "C01": (["T_C01_Cap", "T_C01_Occupancy", "T_C01_NoBreakdown"], ["T_C01_PutHonoured"]),
+    "C02": (["T_C02_Backed", "T_C02_ReadyInside", "T_C02_NoBreakdown"], ["T_C02_GetFresh", "T_C02_GetHonoured", "T_C02_NoInvent"]),
     "C04": (["T_C04_Put", "T_C04_Get"], []),
     "C05": ([], ["T_C05_GrantOrder"]),
     "C07": ([], ["T_C07_Reject", "T_C07_Accept"]),
